@@ -351,7 +351,7 @@ int main(int argc, char** argv)
     for (const char* k : {"tx:lowfee", "tx:trailing", "tx:premature", "cmpct:badpow"}) A_FULL.push_back(k);
     const std::vector<std::string> A_EXTRA = {"tx:lowfee", "tx:trailing", "tx:premature", "cmpct:badpow"};
     const std::vector<std::string> A_TXPROBE = {"tx:valid", "tx:amount", "block:badconnect"};       // what -blocksonly changes
-    const std::vector<std::string> A_PUNISH = {"block:badconnect", "headers:badpow", "tx:script"};  // what a local address changes
+    const std::vector<std::string> A_PUNISH = {"block:badconnect", "headers:badpow", "tx:script", "tx:amount"};  // what a local address changes (+ tx probes)
 
     // The whole space is ConnectionType(7) x permission(5) x -blocksonly(2) x address(2) = 140 configurations.
     // A stage is a set of configurations explored with one alphabet to one depth; every configuration is in exactly one stage.
@@ -370,13 +370,14 @@ int main(int argc, char** argv)
         return (c.type == ConnectionType::INBOUND || c.type == ConnectionType::OUTBOUND_FULL_RELAY || c.type == ConnectionType::MANUAL) && c.perm <= 1 && !c.blocksonly && !c.local;
     };
     if (!big) {
-        stages.push_back({"1 message, base alphabet, non-local address, -blocksonly=0 (all 7 types x 5 permission sets except the depth-2 one)",
-                          all([&](const Cfg& c) { return !c.local && !c.blocksonly && !deep_quick(c); }, 1, &A_BASE)});
-        stages.push_back({"1 message of {tx:valid, tx:amount, block:badconnect}, -blocksonly=1, both addresses",
-                          all([&](const Cfg& c) { return c.blocksonly; }, 1, &A_TXPROBE)});
-        stages.push_back({"1 message of {block:badconnect, headers:badpow, tx:script}, local address, -blocksonly=0",
+        // cheapest, most discriminating stages first: a deadline on a loaded machine then still leaves every oracle clause exercised
+        stages.push_back({"1 message of {block:badconnect, headers:badpow, tx:script, tx:amount}, local address, -blocksonly=0",
                           all([&](const Cfg& c) { return c.local && !c.blocksonly; }, 1, &A_PUNISH)});
         stages.push_back({"all sequences of <= 2 messages, base alphabet, inbound peer without permissions", all(deep_quick, 2, &A_BASE)});
+        stages.push_back({"1 message of {tx:valid, tx:amount, block:badconnect}, -blocksonly=1, both addresses",
+                          all([&](const Cfg& c) { return c.blocksonly; }, 1, &A_TXPROBE)});
+        stages.push_back({"1 message, base alphabet, non-local address, -blocksonly=0 (all 7 types x 5 permission sets except the depth-2 one)",
+                          all([&](const Cfg& c) { return !c.local && !c.blocksonly && !deep_quick(c); }, 1, &A_BASE)});
     } else {
         // ordered by value per transition; a deadline ends the run after a completed stage or inside one (exhaustive=false)
         stages.push_back({"1 message of the 4 extra kinds {tx:lowfee, tx:trailing, tx:premature, cmpct:badpow}, all 140 configurations", all([&](const Cfg&) { return true; }, 1, &A_EXTRA)});
